@@ -268,7 +268,7 @@ theorem commit_inv (cfg : Cfg) (prog : List Op) (mi : Option Nat) (log : Log) (t
       (log.length + 1) := by
   obtain ⟨k, hk, hp, htl, hnoend, hbd, hmi, hmo, hsim⟩ := hinv
   refine ⟨by omega, by simp, hmo, ?_⟩
-  intro hmono htail hpg
+  intro htail hpg
   rw [hprog] at hp
   obtain ⟨hklt, htake, hdrop⟩ := drop_cons_facts hp.symm
   have hsplit : prog = prog.take k ++ (Op.commit :: rest) := by
@@ -279,7 +279,7 @@ theorem commit_inv (cfg : Cfg) (prog : List Op) (mi : Option Nat) (log : Log) (t
     intro s hs
     rcases Bool.or_eq_true _ _ |>.mp hchk with he | hc
     · exact Or.inr (valSnap_empty cfg _ _ _ he)
-    · exact checkSnaps_validates cfg _ log.length tx.rs tx.snaps hbd hmono hc s hs
+    · exact checkSnaps_validates cfg _ log.length tx.rs tx.snaps hbd hc s hs
   have hlen : (prog.take k).length = tx.trace.length := by
     rw [List.length_take, htl]; omega
   have hpg' : pgetOwnFree (prog.take k) tx.trace = true := by
@@ -514,7 +514,6 @@ theorem serializable_of_inv (cfg : Cfg) (hU : cfg.U.Nodup) (progs : List (List O
     (hp : progs[i]? = some (prog, mi))
     (hi : (run cfg (initSys cfg progs) sched).txs[i]? = some tx)
     (hc : tx.status = .committed n)
-    (hmono : snapMonotone tx.snaps = true)
     (htail : noOwnTail tx.rs = true)
     (hpg : pgetOwnFree prog tx.trace = true) :
     tx.trace = soloTrace cfg (run cfg (initSys cfg progs) sched).log (n - 1) prog := by
@@ -522,10 +521,11 @@ theorem serializable_of_inv (cfg : Cfg) (hU : cfg.U.Nodup) (progs : List (List O
   have := hg.2 i tx (prog, mi) hi hp
   unfold TxInv at this
   rw [hc] at this
-  exact this.2.2.2 hmono htail hpg
+  exact this.2.2.2 htail hpg
 
 /-- with the default `SnapshotMustIncludeTxID` the snapshots a transaction holds are never older than the ones it
-acquired before (so the early return of `checkPreconditions` is harmless). -/
+acquired before.  (A fact about snapshot acquisition; `serializable_of_inv` no longer needs it since
+`checkPreconditions` validates every snapshot it does not skip.) -/
 theorem default_monotone_of_inv (cfg : Cfg) (hU : cfg.U.Nodup) (progs : List (List Op × Option Nat)) (sched : List Step)
     (i n : Nat) (tx : TxSt) (prog : List Op)
     (hp : progs[i]? = some (prog, none))
